@@ -151,11 +151,90 @@ Fixpoint run_trace (keys : list (list N)) (local : key) (t : table) (ops : list 
       enc_list (fun i => [N.of_nat i]) (bucket_order (kxor local tgt)) ++ run_trace keys local t r
   end.
 
+(* ---- glue cases: the Kademlia event loop around the table ----
+   case  = 0 :: k :: plist keyentry ++ plist step     (key 0 = local peer; all keys are SHA-256 keys
+           of real peer ids); step = event tag, plist of event arguments (inputs of the harness,
+           ignored here), plist of the glue operations the event led to (observed on the
+           implementation where the query engine decides: which peers got a PeerContext, whether
+           dials were pending, which peers a reply named).
+   trace = 1 :: per step (replies of the step's FIND_NODE-like requests, changed buckets, sorted
+           peer set) ++ final dump ++ peer set *)
+Inductive kgop := KOp (o : kop) | KFind (req tgt : key).
+
+Definition p_kgop (keys : list (N * key)) : parser kgop :=
+  let* tag := pN in
+  match tag with
+  | 14 => let* l := plist (let* e := p_kidx keys in let* a := pN in pret (snd e, negb (a =? 0))) in
+          pret (KOp (KUpdate l))
+  | _ =>
+    let* e := p_kidx keys in
+    let p := snd e in
+    match tag with
+    | 10 => let* a := pN in pret (KOp (KAddKnown p (negb (a =? 0))))
+    | 11 => let* d := pBool in let* pe := pBool in pret (KOp (KEstablished p d pe))
+    | 12 => pret (KOp (KDisconnect p))
+    | 13 => pret (KOp (KTouch p))
+    | 15 => let* a := pN in pret (KOp (KDialFailure p (negb (a =? 0))))
+    | 16 => pret (KOp (KEntry p))
+    | 17 => let* t := p_kidx keys in pret (KFind p (snd t))
+    | _ => pfail
+    end
+  end.
+
+Definition p_kstep (keys : list (N * key)) : parser (list kgop) :=
+  let* _ := pN in let* _ := plist pN in plist (p_kgop keys).
+
+Record kcase := mkKCase { kc_k : nat; kc_keys : list key; kc_local : key; kc_steps : list (list kgop) }.
+
+Definition decode_kcase (l : list N) : option kcase :=
+  pall (let* z := pN in
+        if negb (z =? 0) then pfail else
+        let* k := pNat in
+        let* keys := plist p_keyentry in
+        match keys with
+        | [] => pfail
+        | (_, loc) :: _ =>
+            let* steps := plist (p_kstep keys) in
+            pret (mkKCase k (map snd keys) loc steps)
+        end) l.
+
+Definition enc_peers (pkeys : list (list N)) (ps : list key) : list N :=
+  enc_list (fun x => [x]) (sort_by (fun x => x) (map (kid pkeys) ps)).
+
+Fixpoint krun_step (pkeys : list (list N)) (local : key) (k : nat) (s : kad) (ops : list kgop)
+  : kad * list N :=
+  match ops with
+  | [] => (s, [])
+  | KOp o :: r => krun_step pkeys local k (kstep local K s o) r
+  | KFind _ tgt :: r =>
+      let '(s', out) := krun_step pkeys local k s r in
+      (s', enc_list (fun n => [kid pkeys (n_key n)]) (reply local s tgt k) ++ out)
+  end.
+
+Fixpoint krun_trace (pkeys : list (list N)) (local : key) (k : nat) (s : kad)
+         (steps : list (list kgop)) : list N :=
+  match steps with
+  | [] => dump pkeys (k_table s) ++ enc_peers pkeys (k_peers s)
+  | ops :: r =>
+      let '(s', out) := krun_step pkeys local k s ops in
+      out ++ enc_changed pkeys (changed 0 (k_table s) (k_table s')) ++ enc_peers pkeys (k_peers s')
+          ++ krun_trace pkeys local k s' r
+  end.
+
 Definition run_case (l : list N) : list N :=
   if consts_ok then
-    match decode_case l with
-    | Some c => 1 :: run_trace (map (pack LIMBS) (c_keys c)) (c_local c) (empty_table KBITS) (c_ops c)
-    | None => [0]
+    match l with
+    | 0 :: _ =>
+        match decode_kcase l with
+        | Some c => 1 :: krun_trace (map (pack LIMBS) (kc_keys c)) (kc_local c) (kc_k c)
+                                    (kad_empty KBITS) (kc_steps c)
+        | None => [0]
+        end
+    | _ =>
+        match decode_case l with
+        | Some c => 1 :: run_trace (map (pack LIMBS) (c_keys c)) (c_local c) (empty_table KBITS) (c_ops c)
+        | None => [0]
+        end
     end
   else [0].
 
@@ -285,15 +364,95 @@ Fixpoint steps_ok (lenient : bool) (keys : list key) (local : key) (t : table) (
       let* _ := plist pN in steps_ok lenient keys local t r
   end.
 
+(* ---- glue cases ---- *)
+
+Definition kgop_keys (g : kgop) : list key :=
+  match g with
+  | KOp (KUpdate l) => map fst l
+  | KOp (KAddKnown p _) | KOp (KEstablished p _ _) | KOp (KDisconnect p) | KOp (KTouch p)
+  | KOp (KDialFailure p _) | KOp (KEntry p) => [p]
+  | KFind _ _ => []
+  end.
+Definition kgop_disc (g : kgop) : list key :=
+  match g with KOp (KDisconnect p) => [p] | _ => [] end.
+Definition kgop_writes (g : kgop) : bool :=
+  match g with KOp (KTouch _) | KFind _ _ => false | _ => true end.
+
+(* connected peers whose key no operation of the step names are still there, unchanged *)
+Definition kept_multi (touched : list key) (prev next : list node) : bool :=
+  forallb (fun n => negb (protected n && real n) || existsb (key_eqb (n_key n)) touched ||
+                    existsb (node_eqb n) next) prev.
+
+(* an entry that says Connected still says so unless disconnect_peer ran for that peer *)
+Definition conn_ok (disc : list key) (prev next : list node) : bool :=
+  forallb (fun n => negb (real n && (enc_conn (n_conn n) =? 1)) || existsb (key_eqb (n_key n)) disc ||
+                    existsb (fun n' => key_eqb (n_key n') (n_key n) && (enc_conn (n_conn n') =? 1)) next)
+          prev.
+
+Definition reply_ok (lenient : bool) (local : key) (t : table) (tgt : key) (k : nat) (res : list key)
+  : bool :=
+  (closest_ok t tgt k res || (lenient && in_class local t tgt && closest_ok_class t tgt k res)) &&
+  (length res <=? k)%nat && forallb (fun r => negb (key_eqb r local)) res.
+
+Fixpoint p_replies (keys : list key) (ops : list kgop) : parser (list (key * list key)) :=
+  match ops with
+  | [] => pret []
+  | KFind _ tgt :: r =>
+      let* ids := plist pN in
+      let* rest := p_replies keys r in
+      pret ((tgt, map (key_of_id keys) ids) :: rest)
+  | _ :: r => p_replies keys r
+  end.
+
+Fixpoint ksteps_ok (lenient : bool) (keys : list key) (local : key) (k : nat) (t : table)
+         (steps : list (list kgop)) : parser bool :=
+  match steps with
+  | [] =>
+      let* d := p_changed keys in
+      let* _ := plist pN in
+      pret (list_eqb (fun a b : nat * list node => Nat.eqb (fst a) (fst b) && bucket_eqb (snd a) (snd b))
+                     d (nonempty_from 0 t))
+  | ops :: r =>
+      let* reps := p_replies keys ops in
+      let* ch := p_changed keys in
+      let* _ := plist pN in
+      let touched := flat_map kgop_keys ops in
+      let disc := flat_map kgop_disc ops in
+      let pure := negb (existsb kgop_writes ops) in
+      if forallb (fun ib : nat * list node =>
+                    (fst ib <? length t)%nat && binv_b local (fst ib) (snd ib) &&
+                    kept_multi touched (nth (fst ib) t []) (snd ib) &&
+                    conn_ok disc (nth (fst ib) t []) (snd ib)) ch &&
+         (* a reply is judged against the table it was computed from *)
+         (match reps with [] => true | _ => pure && match ch with [] => true | _ => false end end) &&
+         forallb (fun tr : key * list key => reply_ok lenient local t (fst tr) k (snd tr)) reps
+      then ksteps_ok lenient keys local k (apply_changes t ch) r
+      else pret false
+  end.
+
 Definition prop_ok_gen (lenient : bool) (case trace : list N) : bool :=
-  match decode_case case, trace with
-  | Some c, 1 :: body =>
-      match pall (steps_ok lenient (c_keys c) (c_local c) (empty_table KBITS) (c_ops c)) body with
-      | Some b => b
-      | None => false
+  match case with
+  | 0 :: _ =>
+      match decode_kcase case, trace with
+      | Some c, 1 :: body =>
+          match pall (ksteps_ok lenient (kc_keys c) (kc_local c) (kc_k c) (empty_table KBITS)
+                                (kc_steps c)) body with
+          | Some b => b
+          | None => false
+          end
+      | None, [0] => true
+      | _, _ => false
       end
-  | None, [0] => true
-  | _, _ => false
+  | _ =>
+      match decode_case case, trace with
+      | Some c, 1 :: body =>
+          match pall (steps_ok lenient (c_keys c) (c_local c) (empty_table KBITS) (c_ops c)) body with
+          | Some b => b
+          | None => false
+          end
+      | None, [0] => true
+      | _, _ => false
+      end
   end.
 
 (* the property as stated: no leniency *)
